@@ -503,3 +503,42 @@ def validate_any(b):
         fl, tabs, errs, tot = parse_woff2(b)
         return k, [{t: d for t, (d, tr) in tabs.items() if not tr}], errs
     return None, [], ["unknown container magic %r" % bytes(b[:4])]
+
+
+def foreign_variant(b, longloca=False, bit11=False, order_seed=None, glyph_pad4=False):
+    """The same font as another conforming writer could have stored it: long 'loca' offsets although
+    the glyph data is small (the reference WOFF2 decoder does this), head.flags bit 11 set (any font
+    that went through WOFF2), table data laid out in another physical order. Plain single sfnt with
+    a consistent short loca only; returns None otherwise. Checksums are recomputed."""
+    if kind_of(b) != "sfnt":
+        return None
+    try:
+        tabs = dict(tables_of(b))
+    except Exception:
+        return None
+    changed = False
+    if "head" in tabs and len(tabs["head"]) >= 54:
+        head = bytearray(tabs["head"])
+        if longloca and all(t in tabs for t in ("loca", "glyf", "maxp")) and i16(head, 50) == 0 and len(tabs["maxp"]) >= 6:
+            loca = tabs["loca"]
+            ng = u16(tabs["maxp"], 4)
+            if len(loca) == 2 * (ng + 1):
+                offs = struct.unpack(">%dH" % (ng + 1), loca)
+                if all(x <= y for x, y in zip(offs, offs[1:])) and 2 * offs[-1] <= len(tabs["glyf"]):
+                    tabs["loca"] = struct.pack(">%dL" % (ng + 1), *[2 * o for o in offs])
+                    head[50:52] = struct.pack(">h", 1)
+                    changed = True
+        if bit11 and not u16(head, 16) & 0x0800:
+            head[16:18] = struct.pack(">H", u16(head, 16) | 0x0800)
+            changed = True
+        tabs["head"] = bytes(head)
+    order = None
+    if order_seed is not None:
+        import random
+
+        order = sorted(tabs, key=lambda t: t.encode("latin1"))
+        random.Random(order_seed).shuffle(order)
+        changed = True
+    if not changed:
+        return None
+    return rebuild_sfnt(b[:4], tabs, order=order)
